@@ -426,7 +426,7 @@ func (fc *fnCtx) run() {
 		fc.vals[p] = v
 		fc.params[p.Name()] = v
 		fc.assume(st, fc.valInv(st, p.Type(), sym))
-		if i == 0 && fn.Signature.Recv() != nil && srt == "Ref" {
+		if i == 0 && fn.Signature.Recv() != nil && srt == "Ref" && !(fc.con != nil && fc.con.Ghost["nilok"] != "") {
 			fc.assume(st, Not(Eq(sym, "nilR")))
 			fc.note("receiver assumed non-nil")
 		}
@@ -449,11 +449,31 @@ func (fc *fnCtx) run() {
 	fc.entry = st.clone()
 	fc.entry.heap = map[string]string{}
 
+	// trusted axiom packs the contract opts into ("uses <ext name>")
+	if fc.con != nil {
+		for _, u := range fc.con.Uses {
+			pack := fc.g.CS.ByFunc["ext::"+u]
+			if pack == nil {
+				bail("uses: no axiom pack %s", u)
+			}
+			fc.g.trustedUsed[u] = true
+			aenv := &Env{fc: fc, st: st, old: st, pkg: fn.Pkg.Pkg, vars: map[string]Val{}, pureCtx: true}
+			for _, ax := range pack.Axioms {
+				fc.sc.Axiom(fc.evalClause(aenv, ax))
+			}
+		}
+	}
 	// preconditions
 	if fc.con != nil {
 		env := fc.envAt(st, nil)
 		for _, c := range fc.con.Requires {
 			fc.assume(st, fc.evalAssume(env, c))
+		}
+		// lemmas: pure facts proved from the preconditions (universally quantified over the parameters and anyval constants)
+		for _, c := range fc.con.Lemmas {
+			lst := st.clone()
+			lenv := fc.envAt(lst, nil)
+			fc.oblige(lst, "lemma", fc.evalClause(lenv, c), fn.Pos(), clauseProps(c, fc.propsAll), c.Text)
 		}
 		// vacuity cover: requires satisfiable
 		fc.obls = append(fc.obls, &Obligation{Name: fc.g.fnName(fn) + "#cover.requires", Kind: "cover", Reach: st.reach, Goal: "false", Func: fc.g.fnName(fn), fc: fc, Cover: true, Props: fc.propsAll})
